@@ -53,6 +53,9 @@ CHECKS = {
  "C06": ("exploration", "reference-model monitor (map tag->digest + manifest set) stepped alongside the client with raw-state comparison after every mutation; porcupine linearizability check of concurrent histories",
          "3 k sequential histories per quick run (40 k thorough) of 4-25 operations over 4 tags x 4 manifests on model registries (tag-delete API on / off, tag-list page size 1/2/3/unlimited), fresh layouts and layouts written by other tools (full image names, adjacent / non-adjacent duplicates, untagged entries, containerd names): every returned value / error class and, after every mutation, the raw stored tags (registry state / parsed index.json incl. layout validity and per-tag entry counts) are compared with the model; 1.2 k concurrent histories of 3-4 goroutines through one client with unique manifests per push, layouts checked with porcupine against a register per tag, under -race.",
          "Model equivalences as in DESIGN Appendix B. Registries are not checked for linearizability: a tag delete that meets 404 falls back to the documented non-atomic protocol even when the API exists. Pushes of a short tag next to a foreign full-named entry of the same tag are not generated (ambiguous under the two-step lookup).", "§3 C06"),
+ "C10": ("exploration", "reference-model monitor (multimap subject -> referrers with artifactType and annotations) with raw fallback-tag comparison; deterministic quiescent expectation for concurrent updates under server-side delays",
+         "4 k sequential histories per quick run (50 k thorough) of 4-20 operations {push artifact, referrer-aware delete, list unfiltered / by artifactType / by annotation} over 3 subjects (one never stored), image and index referrers, referrers of referrers, re-pushes, deletion of the last referrer, on registries with the referrers API (page size unlimited/1/2, server-side filter), without it (fallback tag, with and without tag-delete API), response cache on/off, and layouts; after every mutation the raw fallback-tag content is compared too; 1.5 k concurrent runs of 2-4 simultaneous pushes / deletes of distinct artifacts of one subject through one client while the model server delays the fallback-tag GET/PUT (exactly between the client's read and write), compared with the quiescent expectation through raw state, a fresh client and the same (caching) client; -race.",
+         "Comparison is on {digest, artifactType, annotations} as a set. Concurrent runs in which a call returned an error are not judged.", "§3 C10"),
 }
 NOT_APPLICABLE = {}
 
